@@ -270,6 +270,53 @@ func (ex *Exec) blockingUnderLock(st *State, fr *Frame, instr ssa.Instruction, c
 		[]string{"C11.no_blocking_under_teardown_lock"}, goal, nil, ex.posOf(instr))
 }
 
+// mayBlockOnSend: the function (or an in-scope function it calls, transitively) contains a plain
+// send or a blocking select with a send case -- a hand-off whose completion depends on a consumer.
+func (ex *Exec) mayBlockOnSend(fn *ssa.Function, seen map[*ssa.Function]bool) bool {
+	if fn == nil || seen[fn] || fn.Blocks == nil {
+		return false
+	}
+	seen[fn] = true
+	for _, b := range fn.Blocks {
+		for _, in := range b.Instrs {
+			switch x := in.(type) {
+			case *ssa.Send:
+				return true
+			case *ssa.Select:
+				if x.Blocking {
+					for _, s := range x.States {
+						if s.Dir == types.SendOnly {
+							return true
+						}
+					}
+				}
+			case *ssa.Call:
+				if c := x.Common().StaticCallee(); c != nil && inScope(c) && ex.mayBlockOnSend(c, seen) {
+					return true
+				}
+			}
+		}
+	}
+	return false
+}
+
+// callUnderLock: a call to a function under contract is opaque to the caller; if the callee may
+// block on a hand-off and a teardown lock is held here, that is the C11 pattern.
+func (ex *Exec) callUnderLock(st *State, fr *Frame, instr ssa.Instruction, fn *ssa.Function, key string) {
+	l := ex.teardownHeld(st)
+	if l == "" || instr == nil {
+		return
+	}
+	if sp := ex.specs.Funcs[key]; sp != nil && sp.NonBlock != nil {
+		return // proved never to block
+	}
+	if !ex.mayBlockOnSend(fn, map[*ssa.Function]bool{}) {
+		return
+	}
+	ex.oblige(st, "no-blocking-under-lock", fmt.Sprintf("%s/C11.call_may_block_under_%s~%s", fr.key, l, key),
+		[]string{"C11.no_blocking_under_teardown_lock"}, "false", nil, ex.posOf(instr))
+}
+
 func (ex *Exec) selectUnderLock(st *State, fr *Frame, sel *ssa.Select, ch Val) {
 	if !sel.Blocking {
 		return
